@@ -101,6 +101,10 @@ pub fn run_one(case: &Case, path: &str, prefix: &[u8], policy: RwPolicy) -> (Exe
                     return;
                 }
             };
+            // handles are cheap clones of one Arc (the documented way to share a database between
+            // threads); dropping one clone must not give up the file lock the others still rely on
+            let helper = db.clone();
+            drop(helper);
             let closed_before = obs.lock().unwrap().closed.clone();
             let now = inside.fetch_add(1, Ordering::SeqCst) + 1;
             {
